@@ -639,10 +639,12 @@ class _OrbitDynamicsService(_DynamicsServiceBase):
                 state_vector_cls=SynodicStateVector,
                 frame=ReferenceFrame.ROTATING,
             )
-            self._trajectory = traj
             return traj
 
-        return self.get_or_create(cache_key, _factory)
+        traj = self.get_or_create(cache_key, _factory)
+        # also on a cache hit: `trajectory` must be the trajectory of the *last* propagate call
+        self._trajectory = traj
+        return traj
 
     def manifold(self, stable: bool = True, direction: Literal["positive", "negative"] = "positive") -> "Manifold":
         """Create a manifold for the orbit.
